@@ -875,6 +875,7 @@ class FnCtx:
                 return EXTERN_VALUES[name]
             raise Unsupported(n, "call to unknown function " + name)
         info = self.tr.need_fn(d)
+        args = self.subst_default_args(n, d, rd, args)
         if any(p["mode"] != "in" for p in info.params):
             # value position with out-params: hoist into a let
             res = self.call_stmt(n, want_value=True)
@@ -882,6 +883,23 @@ class FnCtx:
         if info.partial:
             return self.pcall(n, "%s fuel%s" % (info.lean_name, "".join(" " + self.arg_in(p, a) for p, a in zip(info.params, args))))
         return "(%s%s)" % (info.lean_name, "".join(" " + self.arg_in(p, a) for p, a in zip(info.params, args)))
+
+    def subst_default_args(self, n, d, rd, args):
+        """default arguments (`fromString(b)` = `fromString(b, 10)`): the initialiser of the parameter declaration"""
+        if not any(self.skip(a).get("kind") == "CXXDefaultArgExpr" for a in args):
+            return args
+
+        def _default(idx):
+            for dd in (d, self.ast.by_id.get(d.get("previousDecl")), self.ast.by_id.get(rd.get("id"))):
+                if dd is None:
+                    continue
+                ps = [c for c in dd.get("inner", []) if c.get("kind") == "ParmVarDecl"]
+                if idx < len(ps):
+                    init = [c for c in ps[idx].get("inner", []) if "kind" in c]
+                    if init:
+                        return init[0]
+            raise Unsupported(n, "default argument %d of %s not found" % (idx, rd.get("name")))
+        return [(_default(i) if self.skip(a).get("kind") == "CXXDefaultArgExpr" else a) for i, a in enumerate(args)]
 
     def arg_in(self, p, a):
         if p["cat"] in ("ptr", "arr", "vr4", "vr8"):
@@ -1031,6 +1049,7 @@ class FnCtx:
                 return EXTERN_VALUES[name] if want_value else None
             raise Unsupported(n, "call to unknown function " + name)
         info = self.tr.need_fn(d)
+        args = self.subst_default_args(n, d, rd, args)
         # the same variable passed for a written parameter and for another parameter: aliased call pattern
         def plain_var(a):
             a0 = self.skip(a)
